@@ -132,7 +132,7 @@ SlotMatches(exp, obs) ==
   ELSE IF exp.k = "int" THEN /\ obs.k = "num" /\ Has(obs, "bits") /\ obs.bits = exp.bits
                              /\ (exp.base # 0 => Has(obs, "pr") /\ obs.pr = <<exp.base, PrintBase(exp.bits, exp.base)>>)
   ELSE IF exp.k = "term" THEN obs.k = exp.kind /\ (exp.kind = "money" => obs.cur = exp.cur)   \* the driver evaluates the term
-  ELSE IF exp.k = "uterm" THEN obs.k = "unit" /\ obs.u = exp.u      \* the driver evaluates the term
+  ELSE IF exp.k = "uterm" THEN (IF Has(exp, "inv") /\ exp.inv THEN obs.k = "num" ELSE obs.k = "unit" /\ obs.u = exp.u)   \* the driver evaluates the term
   ELSE IF exp.k = "notunits" THEN obs.k \in SlotKinds /\ (obs.k = "unit" => obs.u \notin exp.us)
   ELSE IF exp.k = "baseline" THEN Has(obs, "same_as_base") /\ obs.same_as_base      \* the driver compares with the rule-free run
   ELSE IF exp.k = "famq" THEN obs.k = "unit" /\ Has(obs, "q") /\ obs.q = exp.q /\ obs.group = exp.fam /\ obs.index = exp.idx
